@@ -151,7 +151,7 @@ def merge_stats(stats):
             if isinstance(v, bool):
                 dst[k] = dst.get(k, False) or v
             elif isinstance(v, (int, float)):
-                dst[k] = dst.get(k, 0) + v
+                dst[k] = max(dst.get(k, 0), v) if k.startswith('max_') else dst.get(k, 0) + v
             elif isinstance(v, dict):
                 dst.setdefault(k, {})
                 add(dst[k], v)
